@@ -54,8 +54,10 @@ CLAIMED = {
         "thread holds a reference and is not running, no successful step of another thread writes, reallocates or frees the buffer; C04_execution_example - an executable scheduler (Sched.v, proved "
         "sound for the semantics) runs a two-thread program to completion inside Coq; C04_atomic_sites — the atomic call sites regenerated from the "
         "source are exactly the expected ones. NOT proved: that each thread reads back exactly what its own operations would produce sequentially (the data content under interleaving; the "
-        "theorems give race freedom, which is what makes the sequential theorem C01 applicable to each thread's buffer accesses, but that last step is an argument, not a theorem), and lending "
-        "&LeanString across threads (a borrowed handle only reads: covered by the machine's ARead with the owner's reference, not by a typing rule). Tie to the code: the real crate built with "
+        "theorems give race freedom and the frame, which is what makes the sequential theorem C01 applicable to each thread's buffer accesses, but that last step is an argument, not a theorem), "
+        "and cloning THROUGH a borrowed reference. LENDING &LeanString to a scoped thread that reads is part of the machine (ALend / AReadB / AJoinB, invariant J10): covered by "
+        "C04_protocol_safe_all_schedules for every schedule and any number of borrowers; C04_borrowed_buffer_protected - while a loan is outstanding the buffer is live, the lender holds its "
+        "reference, nobody is exclusive or must free. Tie to the code: the real crate built with "
         "--cfg loom --cfg lean_string_verif; every buffer gets a loom UnsafeCell touched by the crate's access notes, so loom's causality checker reports unordered conflicting accesses and the "
         "shim reports accesses to freed buffers; 273 two-thread programs (13 ops x 13 ops x 3 sharing variants), each thread checked against String, all buffers freed at the end of every execution."),
         note=TB + " The C11 fragment formalised in conc/Mach.v is hand-written; the ghost state of Proto.okc is carried by the interleaving semantics as instrumentation (it constrains only the freshness of allocated buffer ids); buffer ids are never reused in the model; 'stronger orderings are also fine' is checked by the typing (at-least tests), not by the machine; loom does not explore every C11 relaxed behaviour; hardware and compiler are out of scope.",
